@@ -2,7 +2,7 @@
    for the correspondence check.  A curve is passed as [p; a; b; n; gx; gy], a point as
    [] (infinity) or [x; y]. *)
 From Coq Require Import String.
-From V Require Import Base.Prelude Base.Ints Base.Disp Model.Pecc.
+From V Require Import Base.Prelude Base.Ints Base.Disp Model.Pecc Model.PeccObj.
 Open Scope string_scope.
 Open Scope Z_scope.
 
@@ -27,6 +27,44 @@ Definition get_point (C : curve) (v : val) : option (result point) :=
   | _ => None
   end.
 
+
+(* ---- object layer (Model/PeccObj.v): a FieldElement is [num; prime], None is [];
+        a generic Point is [x; y; a; b] built through the constructors ---- *)
+Definition vfe (a : fe) : val := VL [VI (fst a); VI (snd a)].
+Definition vofe (a : option fe) : val := match a with Some a => vfe a | None => VL [] end.
+Definition vgp (P : gpoint) : val := VL [vofe (gx P); vofe (gy P); vfe (ga P); vfe (gb P)].
+
+Definition get_fe (v : val) : option (result fe) :=
+  match v with
+  | VL [VI a; VI p] => Some (fe_mk a p)
+  | _ => None
+  end.
+Definition get_ofe (v : val) : option (result (option fe)) :=
+  match v with
+  | VL [] => Some (Ok None)
+  | VL [VI a; VI p] => Some (x <- fe_mk a p ;; Ok (Some x))
+  | _ => None
+  end.
+Definition get_gp (v : val) : option (result gpoint) :=
+  match v with
+  | VL [vx; vy; va; vb] =>
+      match get_ofe vx, get_ofe vy, get_fe va, get_fe vb with
+      | Some rx, Some ry, Some ra, Some rb =>
+          (* Python evaluates the four FieldElement constructors first, then Point(...) *)
+          Some (x <- rx ;; y <- ry ;; a <- ra ;; b <- rb ;; gp_mk x y a b)
+      | _, _, _, _ => None
+      end
+  | _ => None
+  end.
+Fixpoint get_points (C : curve) (l : list val) : option (result (list point)) :=
+  match l with
+  | [] => Some (Ok [])
+  | v :: r =>
+      match get_point C v, get_points C r with
+      | Some rp, Some rr => Some (P <- rp ;; R <- rr ;; Ok (P :: R))
+      | _, _ => None
+      end
+  end.
 
 Definition dispatch (H : oracle) (fn : list Z) (args : list val) : val :=
   match args with
@@ -124,6 +162,104 @@ Definition dispatch (H : oracle) (fn : list Z) (args : list val) : val :=
         match rest with [VB b] => vres vpoint (parse_xonly C b) | _ => bad_args end
       else if fn_is "s_parse" fn then
         match rest with [VB b] => vres vpoint (parse_point C b) | _ => bad_args end
+      else if fn_is "o_fe_eq" fn then
+        match rest with
+        | [va; vb] =>
+            match get_ofe va, get_ofe vb with
+            | Some ra, Some rb => vres_bool (a <- ra ;; b <- rb ;; Ok (ofe_eqb a b))
+            | _, _ => bad_args
+            end
+        | _ => bad_args end
+      else if fn_is "o_fe_ne" fn then
+        match rest with
+        | [va; vb] =>
+            match get_ofe va, get_ofe vb with
+            | Some ra, Some rb => vres_bool (a <- ra ;; b <- rb ;; Ok (ofe_neb a b))
+            | _, _ => bad_args
+            end
+        | _ => bad_args end
+      else if fn_is "o_fe_op" fn then
+        (* op: 0 +, 1 -, 2 *, 3 / *)
+        match rest with
+        | [VI op; va; vb] =>
+            match get_fe va, get_fe vb with
+            | Some ra, Some rb =>
+                vres vfe (a <- ra ;; b <- rb ;;
+                          if op =? 0 then fe_add a b else if op =? 1 then fe_sub a b
+                          else if op =? 2 then fe_mul a b else fe_div a b)
+            | _, _ => bad_args
+            end
+        | _ => bad_args end
+      else if fn_is "o_fe_pow" fn then
+        match rest with
+        | [va; VI e] =>
+            match get_fe va with Some ra => vres vfe (a <- ra ;; fe_pow a e) | None => bad_args end
+        | _ => bad_args end
+      else if fn_is "o_fe_rmul" fn then
+        match rest with
+        | [VI k; va] =>
+            match get_fe va with Some ra => vres vfe (a <- ra ;; fe_rmul k a) | None => bad_args end
+        | _ => bad_args end
+      else if fn_is "o_pt_new" fn then
+        match rest with
+        | [vp] => match get_gp vp with Some rp => vres vgp rp | None => bad_args end
+        | _ => bad_args end
+      else if fn_is "o_pt_eq" fn then
+        match rest with
+        | [vp; vq] =>
+            match get_gp vp, get_gp vq with
+            | Some rp, Some rq => vres_bool (P <- rp ;; Q <- rq ;; Ok (gp_eqb P Q))
+            | _, _ => bad_args
+            end
+        | _ => bad_args end
+      else if fn_is "o_pt_ne" fn then
+        match rest with
+        | [vp; vq] =>
+            match get_gp vp, get_gp vq with
+            | Some rp, Some rq => vres_bool (P <- rp ;; Q <- rq ;; Ok (gp_neb P Q))
+            | _, _ => bad_args
+            end
+        | _ => bad_args end
+      else if fn_is "o_pt_add" fn then
+        match rest with
+        | [vp; vq] =>
+            match get_gp vp, get_gp vq with
+            | Some rp, Some rq => vres vgp (P <- rp ;; Q <- rq ;; gp_add P Q)
+            | _, _ => bad_args
+            end
+        | _ => bad_args end
+      else if fn_is "o_pt_rmul" fn then
+        match rest with
+        | [VI k; vp] =>
+            match get_gp vp with
+            | Some rp => vres vgp (P <- rp ;; gp_rmul k P)
+            | None => bad_args
+            end
+        | _ => bad_args end
+      else if fn_is "s_eq" fn then
+        match rest with
+        | [vp; vq] =>
+            match get_point C vp, get_point C vq with
+            | Some rp, Some rq => vres_bool (P <- rp ;; Q <- rq ;; Ok (s_eqb P Q))
+            | _, _ => bad_args
+            end
+        | _ => bad_args end
+      else if fn_is "s_ne" fn then
+        match rest with
+        | [vp; vq] =>
+            match get_point C vp, get_point C vq with
+            | Some rp, Some rq => vres_bool (P <- rp ;; Q <- rq ;; Ok (s_neb P Q))
+            | _, _ => bad_args
+            end
+        | _ => bad_args end
+      else if fn_is "s_combine" fn then
+        match rest with
+        | [VL vs] =>
+            match get_points C vs with
+            | Some rl => vres vpoint (l <- rl ;; combine C l)
+            | None => bad_args
+            end
+        | _ => bad_args end
       else bad_args
     end
   | _ => bad_args
